@@ -650,6 +650,64 @@ theorem src_snell_sin (asin : ℂ → ℂ) (a cInc cRef : ℂ) (hc : cInc ≠ 0)
   rw [tie_snell_angles, ctrig_srcOps, snell_cTrig, hasin]
   field_simp
 
+/-! ### the per-interface helpers as translated (one specialisation per accepted combination of kind, modes and unit) -/
+
+/-- **the helpers return the coefficient of the requested modes**: fluid → solid transmission into `L` / `T` is the
+second / third output of the translated `fluid_solid` at the Snell angles of the incident angle -/
+theorem src_transmission_selects {K : Type} [Add K] [Sub K] [Mul K] [Div K] [Neg K] (o : Src.Ops K) (a rf rs cf cl ct : K) :
+    Src.transmission_at_interface__fluid_solid_LL_stress o a rf rs cf cl ct
+        = (Src.fluid_solid o a rf rs cf cl ct (Src.snell_angles o a cf cl) (Src.snell_angles o a cf ct)).2.1 ∧
+    Src.transmission_at_interface__fluid_solid_LT_stress o a rf rs cf cl ct
+        = (Src.fluid_solid o a rf rs cf cl ct (Src.snell_angles o a cf cl) (Src.snell_angles o a cf ct)).2.2 ∧
+    Src.transmission_at_interface__solid_fluid_LL_stress o a rf rs cf cl ct = (Src.solid_l_fluid_auto o a rf rs cf cl ct).2.2 ∧
+    Src.transmission_at_interface__solid_fluid_TL_stress o a rf rs cf cl ct = (Src.solid_t_fluid_auto o a rf rs cf cl ct).2.2 :=
+  ⟨rfl, rfl, rfl, rfl⟩
+
+/-- reflections: `R_L` / `R_T` of the translated `solid_l_fluid` (`solid_t_fluid`) for an incident L (T) wave; the
+reflection seen from the fluid is the first output of `fluid_solid` -/
+theorem src_reflection_selects {K : Type} [Add K] [Sub K] [Mul K] [Div K] [Neg K] (o : Src.Ops K) (a rf rs cf cl ct : K) :
+    Src.reflection_at_interface__solid_fluid_LL_stress o a rf rs cf cl ct = (Src.solid_l_fluid_auto o a rf rs cf cl ct).1 ∧
+    Src.reflection_at_interface__solid_fluid_LT_stress o a rf rs cf cl ct = (Src.solid_l_fluid_auto o a rf rs cf cl ct).2.1 ∧
+    Src.reflection_at_interface__solid_fluid_TL_stress o a rf rs cf cl ct = (Src.solid_t_fluid_auto o a rf rs cf cl ct).1 ∧
+    Src.reflection_at_interface__solid_fluid_TT_stress o a rf rs cf cl ct = (Src.solid_t_fluid_auto o a rf rs cf cl ct).2.1 ∧
+    Src.reflection_at_interface__fluid_solid_LL_stress o a rf rs cf cl ct = (Src.fluid_solid_auto o a rf rs cf cl ct).1 :=
+  ⟨rfl, rfl, rfl, rfl, rfl⟩
+
+/-- **displacement units = stress units times the documented impedance ratio** `Z_in / Z_out = ρ_in c_in / (ρ_out c_out)`
+(transmissions) resp. `c_in / c_out` (reflections, same medium), with the velocity of the mode on each side -/
+theorem src_displacement_ratio {K : Type} [Add K] [Sub K] [Mul K] [Div K] [Neg K] (o : Src.Ops K) (a rf rs cf cl ct : K) :
+    Src.transmission_at_interface__fluid_solid_LL_displacement o a rf rs cf cl ct
+        = Src.transmission_at_interface__fluid_solid_LL_stress o a rf rs cf cl ct * ((rf * cf) / (rs * cl)) ∧
+    Src.transmission_at_interface__fluid_solid_LT_displacement o a rf rs cf cl ct
+        = Src.transmission_at_interface__fluid_solid_LT_stress o a rf rs cf cl ct * ((rf * cf) / (rs * ct)) ∧
+    Src.transmission_at_interface__solid_fluid_LL_displacement o a rf rs cf cl ct
+        = Src.transmission_at_interface__solid_fluid_LL_stress o a rf rs cf cl ct * ((rs * cl) / (rf * cf)) ∧
+    Src.transmission_at_interface__solid_fluid_TL_displacement o a rf rs cf cl ct
+        = Src.transmission_at_interface__solid_fluid_TL_stress o a rf rs cf cl ct * ((rs * ct) / (rf * cf)) ∧
+    Src.reflection_at_interface__solid_fluid_LT_displacement o a rf rs cf cl ct
+        = Src.reflection_at_interface__solid_fluid_LT_stress o a rf rs cf cl ct * (cl / ct) ∧
+    Src.reflection_at_interface__solid_fluid_TL_displacement o a rf rs cf cl ct
+        = Src.reflection_at_interface__solid_fluid_TL_stress o a rf rs cf cl ct * (ct / cl) ∧
+    Src.reflection_at_interface__solid_fluid_LL_displacement o a rf rs cf cl ct
+        = Src.reflection_at_interface__solid_fluid_LL_stress o a rf rs cf cl ct * (cl / cl) ∧
+    Src.reflection_at_interface__solid_fluid_TT_displacement o a rf rs cf cl ct
+        = Src.reflection_at_interface__solid_fluid_TT_stress o a rf rs cf cl ct * (ct / ct) ∧
+    Src.reflection_at_interface__fluid_solid_LL_displacement o a rf rs cf cl ct
+        = Src.reflection_at_interface__fluid_solid_LL_stress o a rf rs cf cl ct * (cf / cf) :=
+  ⟨rfl, rfl, rfl, rfl, rfl, rfl, rfl, rfl, rfl⟩
+
+/-- **normal incidence through the translated helpers** (an arcsine with `asin 0 = 0`): the acoustic-impedance formulas
+`T = 2 Z_s/(Z_s + Z_f)` into the L mode and `R = (Z_s − Z_f)/(Z_s + Z_f)` seen from the fluid -/
+theorem src_helpers_normal_incidence (asin : ℂ → ℂ) (ρf ρs cf cl ct : ℂ) (hρs : ρs ≠ 0) (hcl : cl ≠ 0) (h0 : asin 0 = 0) :
+    Src.transmission_at_interface__fluid_solid_LL_stress (srcOps asin) 0 ρf ρs cf cl ct = 2 * (ρs * cl) / (ρs * cl + ρf * cf) ∧
+    Src.reflection_at_interface__fluid_solid_LL_stress (srcOps asin) 0 ρf ρs cf cl ct = (ρs * cl - ρf * cf) / (ρs * cl + ρf * cf) := by
+  have ht := tie_transmission_fluid_solid_LL_stress (srcOps asin) 0 ρf ρs cf cl ct
+  have hr := tie_reflection_fluid_solid_LL_stress (srcOps asin) 0 ρf ρs cf cl ct
+  rw [ctrig_srcOps] at ht hr
+  rw [transmissionAt_normal_L asin (media ρf ρs cf cl ct) hρs hcl h0] at ht
+  rw [reflectionAt_normal asin (media ρf ρs cf cl ct) hρs hcl h0] at hr
+  exact ⟨(Except.ok.inj ht).symm, (Except.ok.inj hr).symm⟩
+
 end OnSource
 
 end Arim.C04
